@@ -183,13 +183,25 @@ impl World {
                 let d = &self.nodes[i].disk;
                 d.hs.term == post.term && d.hs.vote == id
             };
+            {
+                let nd = &self.nodes[i];
+                if nd.g.lost_cc_commit > 0 && post.applied < nd.g.lost_cc_commit {
+                    self.ghost.leader_torn.insert(post.term);
+                }
+            }
             match self.ghost.leader_of.get(&post.term) {
                 Some(l) if *l != id => {
                     // a leadership that existed in memory only (a single-voter node elects
                     // itself before its vote is persisted and crashed before the write) gets
                     // its own signature
+                    // a crash between the write of entries and the write of the hard state
+                    // that carried their commit index left one of the two with a membership
+                    // change in its log that it no longer knows to be committed: it campaigned
+                    // under a configuration more than one change old
                     let kind = if self.ghost.leader_volatile.contains(&post.term) {
                         "two leaders in one term [the first never persisted its self-vote: single-voter self-election lost in a crash]"
+                    } else if self.ghost.leader_torn.contains(&post.term) {
+                        "two leaders in one term [one of them lost its commit index over a membership change in a torn write and campaigned under a configuration two changes old]"
                     } else {
                         "two leaders in one term"
                     };
